@@ -437,16 +437,13 @@ class SlotNode(BaseNode):
             )
             parent_index = get_last_index(context.dicts[:curr_index], lambda d: _COMPONENT_CONTEXT_KEY in d)
 
-            # NOTE: There's an edge case when our component `hui3q2` appears at the start of the stack:
+            # NOTE: When our component `hui3q2` appears at the start of the stack:
             # hui3q2 -> ax3c89 -> ... -> hui3q2
             #
-            # Looking left finds nothing. In this case, look for the first component layer to the right.
-            if parent_index is None and curr_index + 1 < len(context.dicts):
-                parent_index = get_index(
-                    context.dicts[curr_index + 1 :], lambda d: _COMPONENT_CONTEXT_KEY in d  # noqa: E203
-                )
-                if parent_index is not None:
-                    parent_index = parent_index + curr_index + 1
+            # then looking left finds nothing, and the component has no parent whose fills we could use.
+            # The component layers to the right belong to the component's own descendants. We must NOT
+            # use their fills - they were given by this component, so we'd be rendering this slot
+            # with a fill that may contain this very slot.
 
             trace_component_msg(
                 "SLOT_PARENT_INDEX",
